@@ -11,7 +11,7 @@ from sim import simrandom
 from sim.sched import HarnessError, InvalidCase, Violation
 
 FORMATS = ("list", "dense", "csr", "csc", "coo")
-FILLS = ("upper", "symmetric", "lower")
+FILLS = ("upper", "symmetric", "lower", "mixed")      # mixed: every edge stored once, in either triangle (a relabelled upper-triangular adjacency)
 DTYPES = ("int", "int", "bool", "int8", "uint8")
 MSO_CHOICES = ([0.5, 1.0], [0.5, 1.0], [0.0, 0.0], [1.0, 1.0], [1.5, 0.0], [0.0, 2.0], [-1.0, 0.5])
 
@@ -119,10 +119,10 @@ def gen_repr(rng):
     if fmt in ("csr", "csc", "coo") and rng.random() < 0.3:
         # the same adjacency matrix with a few zeros stored explicitly (as left behind by A[i, j] = 0 or A - B)
         return {"fmt": fmt, "fill": rng.choice(FILLS), "dtype": "int", "explicit_zeros": rng.randint(1, 3),
-                "zseed": rng.randrange(10 ** 6)}
+                "zseed": rng.randrange(10 ** 6), "mseed": rng.randrange(1000)}
     # bool adjacency only for nested lists / dense arrays: SciPy itself rejects some bool sparse
     # formats, and the property does not speak about dtypes
-    return {"fmt": fmt, "fill": rng.choice(FILLS),
+    return {"fmt": fmt, "fill": rng.choice(FILLS), "mseed": rng.randrange(1000),
             "dtype": rng.choice(DTYPES) if fmt in ("list", "dense") else "int"}
 
 
@@ -138,8 +138,22 @@ def check_graph_json(g):
 def materialize(g, rep):
     n = g["n"]
     A = np.zeros((n, n), dtype=np.int64)
-    for u, v in g["edges"]:
+    if rep["fill"] not in FILLS:
+        raise InvalidCase("fill")
+    import random as _random0
+    tri = _random0.Random(rep.get("mseed", 0) * 7919 + n)
+    m_edges = len(g["edges"])
+    # mixed storage, biased to equal counts above and below the diagonal
+    flips = [i % 2 == 0 for i in range(m_edges)]
+    tri.shuffle(flips)
+    for ei, (u, v) in enumerate(g["edges"]):
         lo, hi = min(u, v), max(u, v)
+        if rep["fill"] == "mixed":
+            if flips[ei]:
+                A[lo, hi] = 1
+            else:
+                A[hi, lo] = 1
+            continue
         if rep["fill"] in ("upper", "symmetric"):
             A[lo, hi] = 1
         if rep["fill"] in ("lower", "symmetric"):
